@@ -43,6 +43,7 @@ type preSection struct {
 // included only when the function under proof mentions one of the section's symbols
 // (dropping an axiom only weakens what is assumed).
 type Pre struct {
+	ghostText string
 	core     string
 	sections []preSection
 	tail     string
@@ -59,7 +60,24 @@ func (p *Pre) For(script string) string {
 			}
 		}
 	}
-	b.WriteString(p.tail)
+	// per-constant blocks of the tail are included only for constants the script mentions
+	tail := p.tail
+	for {
+		i := strings.Index(tail, "; @const ")
+		if i < 0 {
+			b.WriteString(tail)
+			break
+		}
+		b.WriteString(tail[:i])
+		rest := tail[i:]
+		nl := strings.Index(rest, "\n")
+		marker := strings.TrimSpace(rest[len("; @const "):nl])
+		end := strings.Index(rest, "; @endconst\n")
+		if strings.Contains(script, marker+" ") || strings.Contains(p.ghostText, marker+" ") {
+			b.WriteString(rest[nl+1 : end])
+		}
+		tail = rest[end+len("; @endconst\n"):]
+	}
 	return b.String()
 }
 
@@ -146,9 +164,26 @@ func (g *Gen) Preamble() (*Pre, error) {
 			fmt.Fprintf(&b, "(assert (= (select %s!0 0) 0))\n", f)
 		}
 	}
-	if err := g.EmitGhosts(&b); err != nil {
+	var gb strings.Builder
+	if err := g.EmitGhosts(&gb); err != nil {
 		return nil, err
 	}
+	p.ghostText = gb.String()
+	// constants interned while translating the ghost definitions must be declared before them
+	var b2 strings.Builder
+	g.EmitDecls(&b2)
+	b.Reset()
+	b.WriteString(b2.String())
+	for _, f := range g.famOrder {
+		fmt.Fprintf(&b, "(declare-const %s!0 %s)\n", f, g.families[f])
+		if strings.HasPrefix(f, "MD_") {
+			fmt.Fprintf(&b, "(assert (= (select %s!0 0) ((as const (Array Int Bool)) false)))\n", f)
+		}
+		if strings.HasPrefix(f, "MC_") {
+			fmt.Fprintf(&b, "(assert (= (select %s!0 0) 0))\n", f)
+		}
+	}
+	b.WriteString(p.ghostText)
 	p.tail = b.String()
 	return p, nil
 }
@@ -214,15 +249,18 @@ func scratchDir() string {
 type job struct {
 	fg   *FuncGen
 	blk  int
+	via  int
 	obls []*Obligation
 }
 
 // Discharge proves the obligations; quick per-function batches first, then a portfolio on what is left.
 func Discharge(pre *Pre, fgs []*FuncGen, filter func(*Obligation) bool, timeoutMs int, workers int, confirm bool) []*Result {
 	var jobs []job
-	chunk := 30
-	if os.Getenv("GOVC_STANDALONE") != "" {
-		chunk = 1
+	// one obligation per solver run: the verdict on an obligation must not depend on which other
+	// obligations happen to share its process (instantiations made for a neighbour can leak)
+	chunk := 1
+	if n := os.Getenv("GOVC_CHUNK"); n != "" {
+		fmt.Sscan(n, &chunk)
 	}
 	for _, fg := range fgs {
 		var sel []*Obligation
@@ -233,12 +271,12 @@ func Discharge(pre *Pre, fgs []*FuncGen, filter func(*Obligation) bool, timeoutM
 		}
 		// obligations of the same block share one slice of the function
 		small := len(fg.order) <= 12
-		groups := map[int][]*Obligation{}
-		var blks []int
+		groups := map[[2]int][]*Obligation{}
+		var blks [][2]int
 		for _, o := range sel {
-			b := o.Block
+			b := [2]int{o.Block, o.Via}
 			if small {
-				b = -1
+				b = [2]int{-1, -1}
 			}
 			if _, ok := groups[b]; !ok {
 				blks = append(blks, b)
@@ -252,7 +290,7 @@ func Discharge(pre *Pre, fgs []*FuncGen, filter func(*Obligation) bool, timeoutM
 				if j > len(grp) {
 					j = len(grp)
 				}
-				jobs = append(jobs, job{fg, blk, grp[i:j]})
+				jobs = append(jobs, job{fg, blk[0], blk[1], grp[i:j]})
 			}
 		}
 	}
@@ -271,7 +309,7 @@ func Discharge(pre *Pre, fgs []*FuncGen, filter func(*Obligation) bool, timeoutM
 			if blk == -2 {
 				blk = -3 // prologue only
 			}
-			b.WriteString(jb.fg.Script(blk))
+			b.WriteString(jb.fg.ScriptVia(blk, jb.via))
 			for _, o := range jb.obls {
 				b.WriteString(oblScript(o, false))
 			}
@@ -320,7 +358,11 @@ func Discharge(pre *Pre, fgs []*FuncGen, filter func(*Obligation) bool, timeoutM
 			if blk == -2 {
 				blk = -3
 			}
-			script := fg.Script(blk) + oblScript(o, true)
+			via := o.Via
+			if len(fg.order) <= 12 {
+				via = -1
+			}
+			script := fg.ScriptVia(blk, via) + oblScript(o, true)
 			script = pre.For(script) + script
 			if d := os.Getenv("GOVC_KEEP"); d != "" {
 				os.MkdirAll(d, 0o755)
